@@ -8,6 +8,9 @@
 #include <climits>
 #include <cinttypes>
 #include <string>
+#include <vector>
+#include <sstream>
+#include <frg/std_compat.hpp>
 
 using namespace verif;
 
@@ -441,6 +444,27 @@ template<size_t Limit> static void logger_test(Enumerator &E) {
 	});
 }
 
+
+// The other sinks of logging.hpp: output_to(container) for std::string / std::vector<char> / frg::string and
+// to(ostream): the same pieces must arrive complete and in order in each of them.
+template<class MakeSink, class Read> static void sink_case(Enumerator &E, const std::string &name, MakeSink mk, Read read) {
+	for(size_t len = 0; len <= 40; len++) E.eval(name + " len=" + std::to_string(len), "sinks", [&] {
+		std::string msg; for(size_t i = 0; i < len; i++) msg.push_back("abcdefghijklmnopqrstuvwxyz"[i % 26]);
+		std::string expect = msg + "|-89|" + msg + "|00ff|x|1234567|" + "18446744073709551615|-9223372036854775808";
+		std::string got = mk([&](auto &&out) { out << msg.c_str() << "|" << -89 << "|" << frg::string_view(msg.data(), msg.size()) << "|" << frg::fmt("{:04x}", 255) << "|" << frg::char_fmt('x') << "|" << 1234567u << "|" << 18446744073709551615ull << "|" << (-9223372036854775807ll - 1); });
+		(void)read;
+		if(got != expect) throw Violation{"C19", "sinks:text-lost:" + name, name + " received \"" + got + "\" for \"" + expect + "\""};
+	});
+}
+static InstResult run_sinks(const std::vector<CrashInfo> &cr) {
+	Enumerator E("sinks", "C19", cr);
+	sink_case(E, "output_to(std::string)", [](auto body) { std::string c; auto o = frg::output_to(c); body(o); return c; }, 0);
+	sink_case(E, "output_to(std::vector<char>)", [](auto body) { std::vector<char> c; auto o = frg::output_to(c); body(o); return std::string(c.begin(), c.end()); }, 0);
+	sink_case(E, "output_to(frg::string)", [](auto body) { frg::string<frg::stl_allocator> c; auto o = frg::output_to(c); body(o); return std::string(c.data(), c.size()); }, 0);
+	sink_case(E, "to(std::ostringstream)", [](auto body) { std::ostringstream c; auto o = frg::to(c); body(o); return c.str(); }, 0);
+	return E.finish();
+}
+
 static std::vector<Instance> instances(const std::string &tier) {
 	bool th = tier == "thorough";
 	std::vector<Instance> v;
@@ -454,6 +478,7 @@ static std::vector<Instance> instances(const std::string &tier) {
 		add(std::string("printf-%") + LEN[len] + conv, [=](const std::vector<CrashInfo> &cr) { return run_ints(cr, conv, len, th); });
 	}
 	add("printf-grouping", [=](const std::vector<CrashInfo> &cr) { return run_grouping(cr, th); });
+	add("sinks", [=](const std::vector<CrashInfo> &cr) { return run_sinks(cr); });
 	add("printf-chars", [=](const std::vector<CrashInfo> &cr) { return run_chars(cr, th); });
 	int NS = th ? 16 : 8;
 	for(int s = 0; s < NS; s++) add("fmt-" + std::to_string(s), [=](const std::vector<CrashInfo> &cr) { return run_fmt(cr, th, s, NS); });
